@@ -30,10 +30,18 @@ def witness_replay(entry):
     return (rej and out.stack.stack != s.stack.stack), "rejected use: stack %d -> %d" % (s.stack.stack, out.stack.stack)
 
 
+def dispatch_hook(ctx):
+    """store-level claim: Props/C07_dispatch.v over Model/Dispatch.v + the H-dispatch tie and search"""
+    from lib import h_dispatch
+    return h_dispatch.hook(ctx, "C07")
+
+
 def run(ctx: Ctx) -> int:
     return ec.run_prop(ctx, "theories/Props/C07.v", ec.ASSUME_COMMON + [
-        "StackableBuffSkillComponent.use is modelled as shipped (stack bumped before the availability test): refuted theorem + known finding"],
-        known_match, witness_replay, RULE)
+        "StackableBuffSkillComponent.use is modelled as shipped (stack bumped before the availability test): refuted theorem + known finding",
+        "store level: Props/C07_dispatch.v (a reducer answering (input state, [reject]) leaves the store unchanged, no ACCEPT) over "
+        "Model/Dispatch.v, tied to simulate/base.py + component/base.py by the H-dispatch correspondence"],
+        known_match, witness_replay, RULE, hook=dispatch_hook)
 
 
 def replay(ctx, path):
